@@ -229,6 +229,15 @@ CLAIMED = {
              "stand-in (native calc_sc runs on one fixed meshed network), labelled bounded.",
         note="Assumed: scipy inv / factorized, makeYbus (C02). Not decided deductively: currents.py (2-D complex arrays), independence "
              "of sn_mva and of the set of faulted buses, kappa method B."),
+    "C07": dict(
+        text="Proof for the generic row (real loop text behind _select_is_elements_numba): an element is selected as in service iff its own "
+             "flag is set and its bus is in service; a bus stays in service iff it was and its ppc bus is not isolated; the real "
+             "_set_buses_out_of_service gives NaN voltage and zero load exactly to the ppc buses of type NONE and touches nothing else; "
+             "elements not in service report zero power (shared with C16/C04). The connectivity search, the re-routing of lines at "
+             "out-of-service buses and the equality with topology.unsupplied_buses are only a bounded stand-in (native power flows on "
+             "four fixed networks), labelled bounded.",
+        note="Assumed: numba compiles the Python text of the loops. Not decided deductively: _check_connectivity (scipy csgraph), "
+             "_branches_with_oos_buses."),
 }
 
 NOT_APPLICABLE = {
